@@ -171,7 +171,7 @@ func (ListCheck) Run(e *Env) (*Outcome, *Evidence, error) {
 	thorough := e.Tier == "thorough"
 	n := 400
 	if thorough {
-		n = 6000
+		n = 4000
 	}
 	model := famCraft(n, "list_ready")
 	g, err := e.runTLC("hl", "MC_Seq", model.cfg("{}", "roots", nil, []string{"CodeReadyIsSpecReady"}), 8, 20*time.Minute, "-seed", strconv.FormatInt(e.Seed, 10))
